@@ -46,7 +46,8 @@ EvAuth ==
        \cup Flag("C08_SessionContinues", E.cont_ok)
 EvClient ==
   /\ E.t \in {"client_tls", "client_after"} /\ UNCHANGED tls
-  /\ bad' = bad \cup Flag("C08_NoCrossing", E.t = "client_after" => E.real /\ E.code = 250)
+  \* (ext_ok: the extensions the client holds after the handshake are those of the EHLO reply received inside the TLS session)
+  /\ bad' = bad \cup Flag("C08_NoCrossing", E.t = "client_after" => E.real /\ E.code = 250 /\ E.ext_ok)
                 \cup Flag("C08_ClientEncrypted", E.t = "client_tls" => (E.code = 220 => E.enc))
 EvOther == /\ E.t \in {"banner", "starttls"} /\ UNCHANGED tls /\ bad' = bad
 Next == /\ l <= Len(Tr) /\ (EvTls \/ EvCb \/ EvUnsol \/ EvHandoff \/ EvProbe \/ EvAuth \/ EvClient \/ EvOther) /\ l' = l + 1 /\ UNCHANGED tid
